@@ -351,3 +351,8 @@ func IsLibrary(f *ssa.Function) bool {
 	}
 	return true
 }
+
+// InModulePkg reports whether the package belongs to the analysed module.
+func InModulePkg(p *types.Package) bool {
+	return p != nil && strings.HasPrefix(p.Path(), ModulePath)
+}
